@@ -46,6 +46,8 @@ def main():
 
 
 def run(a, tier, by_commit):
+    resume = '--resume' in a
+    a = [x for x in a if x != '--resume']
     rp = os.path.join(OUTD, 'REVERTS.json')
     allres = json.load(open(rp)) if os.path.exists(rp) else {}
     order = sh(['git', '-C', REPO, 'log', '--format=%h']).stdout.split()
@@ -53,6 +55,8 @@ def run(a, tier, by_commit):
     if a:
         commits = [c for c in commits if any(c.startswith(x) or x.startswith(c) for x in a)]
     for c in commits:
+        if resume and c in allres:
+            continue
         entries = [e for k, es in by_commit.items() if c.startswith(k) or k.startswith(c) for e in es]
         subj = sh(['git', '-C', REPO, 'log', '--format=%s', '-1', c]).stdout.strip()
         assert clean(), '/repo is not clean'
@@ -61,8 +65,8 @@ def run(a, tier, by_commit):
         if ap.returncode:
             ap = subprocess.run(['git', '-C', REPO, 'apply', '-3', '-'], input=diff, capture_output=True, text=True)
         if ap.returncode or not sh(['git', '-C', REPO, 'status', '--porcelain', '--untracked-files=no']).stdout.strip():
-            sh(['git', '-C', REPO, 'checkout', '--', '.'])
-            sh(['git', '-C', REPO, 'reset', '-q'])
+            sh(['git', '-C', REPO, 'reset', '-q', '--hard'])
+            sh(['git', '-C', REPO, 'clean', '-fdq'])
             allres[c] = dict(subject=subj, skipped='reverse patch no longer applies (later fixes touch the same lines)')
             print(c, 'SKIP', subj)
             json.dump(allres, open(rp, 'w'), indent=1, sort_keys=True)
@@ -80,8 +84,8 @@ def run(a, tier, by_commit):
                                            keys=keys[:10], wall_s=round(time.time() - t0, 1))
                 shutil.rmtree(out, ignore_errors=True)
         finally:
-            sh(['git', '-C', REPO, 'checkout', '--', '.'])
-            sh(['git', '-C', REPO, 'reset', '-q'])
+            sh(['git', '-C', REPO, 'reset', '-q', '--hard'])
+            sh(['git', '-C', REPO, 'clean', '-fdq'])
         assert clean()
         allres[c] = res
         print(c, subj[:70], {p: (r['detected'], len(r['recorded_key_seen'])) for p, r in res['checks'].items()})
